@@ -142,10 +142,15 @@ func roundTrip[T any](run *vk.Run, r *rand.Rand, kind, scratch string, value, ot
 	bus := ebu.New(ebu.WithStore(st.Store))
 	o := optSet{r.IntN(2) == 0, r.IntN(2) == 0, r.IntN(3) == 0, r.IntN(3) == 0}
 	ts := jgen.Timestamp(r)
-	key := []string{"k", "a/b", " ", "ключ/1", "😀", strings.Repeat("long", 50), "a//b", "./k", "a/b/", ".."}[r.IntN(10)]
+	key := []string{"k", "a/b", " ", "ключ/1", "😀", strings.Repeat("long", 50), "a//b", "./k", "a/b/", "..", `{"k":1}`, `"quoted"`, "null"}[r.IntN(13)]
 	op := []string{"insert", "update", "update-old", "delete", "delete-old"}[r.IntN(5)]
 	var msg *state.ChangeMessage
 	old := value
+	defer func() {
+		if rec := recover(); rec != nil {
+			run.Violation("statemsg:constructor-or-apply-panicked", fmt.Sprintf("[%s via %s, %s] a helper constructor / collection constructor / Apply panicked for an encodable entity: %v", shape, kind, op, rec), map[string]any{"shape": shape, "op": op, "key": key})
+		}
+	}()
 	switch op {
 	case "insert":
 		msg, err = state.Insert(key, value, o.opts(ts)...)
@@ -343,6 +348,11 @@ func TestC19RoundTrip(t *testing.T) {
 			roundTrip(run, r, kind, scratch, Named{V: r.IntN(100)}, Named{V: -1}, "Named(StateTypeName)", func(a, b Named) bool { return a == b })
 		case 5:
 			roundTrip(run, r, kind, scratch, map[string]int{str(r): i, "k": 1}, map[string]int{"stale": 9}, "map entity", func(a, b map[string]int) bool { return reflect.DeepEqual(a, b) })
+			// scalar, slice and pointer entities
+			roundTrip(run, r, kind, scratch, int64(r.IntN(1000))-500, int64(7), "scalar entity", func(a, b int64) bool { return a == b })
+			roundTrip(run, r, kind, scratch, []string{str(r), "x"}, []string{"stale", "y", "z"}, "slice entity", func(a, b []string) bool { return reflect.DeepEqual(a, b) })
+			pe, po := &Named{V: r.IntN(50)}, &Named{V: -2}
+			roundTrip(run, r, kind, scratch, pe, po, "pointer entity", func(a, b *Named) bool { return a != nil && b != nil && *a == *b })
 		}
 	}
 }
